@@ -53,6 +53,12 @@ func (c *c02Oracle) Check(w *World, o *Obs) []Violation {
 		if o.uidBefore() == uidPut {
 			return nil // re-validation by the logged-in user, not a pending login
 		}
+		wasPending := o.SessBefore["totp_pending"] == uidPut || o.SessBefore["sms_pending"] == uidPut
+		if !wasPending && !w.rowHasFactor(row) {
+			// not a second-factor account and nothing of it was pending: what a
+			// cookie-authenticated session may do is C07's business
+			return nil
+		}
 		rc := o.presented("recovery")
 		code := o.presented("code")
 		if rc != nil && rc.Value != "" {
